@@ -288,7 +288,9 @@ class GeckoFacade(Observable):
             self.all_user_devices
             + self.sensors
             + self.binary_sensors
-            + [self.water_heater, self.water_care, self.keypad, self.eco_mode]
+            + [self.water_heater, self.water_care, self.keypad]
+            # Not every pack has an economy mode
+            + ([self.eco_mode] if self.eco_mode is not None else [])
         )
 
     def get_device(self, key):
